@@ -97,7 +97,10 @@ func VH21a_listener() {
 	case 3: // partial header, then hangs up
 		c1.PeerSend(vnet.SPHeader(self)[:verif.Choice("part", 7)+1])
 		c1.PeerHangup()
-	case 4: // silent: never completes its handshake
+	case 4: // silent: never completes its handshake (on TLS: not even the TLS negotiation)
+		if isTLS() {
+			vnet.TLSStalled[c1] = true
+		}
 	}
 	verif.Quiesce()
 	// the library always sends its own header first
